@@ -19,16 +19,18 @@
    Defragmentation (theorems C02_defrag_...): the same three statements hold in every state of a history that also
    contains BeginDefragmentation / BeginDefragPass / EndDefragPass (any MoveOperation per move) / Finish, each
    with any fault oracle (VamDefragThm.reachD), in particular between BeginDefragPass and EndDefragPass (the
-   temporaries are ordinary block allocations there) and after the moves were completed.  PARTIAL, explicit in
-   reachD: ordinary calls only while no pass is open; BeginDefragPass only on block lists of granularity 1
-   (always the case when bufferImageGranularity is 1: C02_defrag_domain_gran1).  The move collection itself is
+   temporaries are ordinary block allocations there) and after the moves were completed, for ANY bufferImageGranularity
+   (a power of two up to 2^32, cfg_ok; C02_defrag_gran_bookkeeping: the granularity bookkeeping of every TLSF block - vam's
+   handler, page table, rounded sizes - is sound in every state, which is what the planner needs on top of VamInv).
+   Explicit in reachD: an ordinary call while a pass is open leaves the objects of the pending moves alone; BeginDefragPass
+   only while no pass is open (C02_defrag_domain_gran1, kept under its name: dop_ok is just that).  The move collection itself is
    Defrag.collect_moves (C15/C07 development), run on the projection of the block list; the bridge
    (VamDefragPass.project_wf, writeback_inv) shows that the allocator invariant gives the planner's
    precondition and that the planner's postcondition gives the allocator invariant back. *)
 From Coq Require Import ZArith List Lia.
 From Arsenal Require Import VamDev VamBlockList VamDefrag Vam VamInvMeta VamInv VamInvStep VamInvThm VamProps VamPropsOps
   VamDefragStep VamDefragPass VamDefragThm.
-From Arsenal Require Bits Defrag.
+From Arsenal Require Bits Defrag VamGran.
 Import ListNotations.
 Open Scope Z_scope.
 
@@ -76,6 +78,7 @@ Proof.
   - constructor; [cbn; lia|constructor].
   - constructor; [cbn; lia|constructor; [cbn; lia|constructor]].
   - right. apply Bits.pow2_1.
+  - lia.
   - right. apply Bits.pow2_1.
 Qed.
 
@@ -153,11 +156,18 @@ Proof.
 Qed.
 Print Assumptions C02_defrag_pending_moves.
 
-(* with bufferImageGranularity 1 the domain condition of BeginDefragPass is just "no pass is open" *)
+(* the domain condition of BeginDefragPass is just "no pass is open" (for any granularity; the hypothesis is vestigial) *)
 Theorem C02_defrag_domain_gran1 : forall c v run o,
   cfg_ok c -> eff_granularity c = 1 -> reachD c v run -> drun_idle run -> dop_ok v run o.
 Proof. intros c v run o Hc E R Hi. apply (dop_ok_eff c); auto. apply (reachD_inv c Hc v run R). Qed.
 Print Assumptions C02_defrag_domain_gran1.
+
+(* every TLSF block of every list carries GranTlsf.GInv for its list's granularity, every block Allocation has a suballocation
+   type 1..5 and a size that RoundUpAllocRequest leaves alone, in every state of every history with defragmentation *)
+Theorem C02_defrag_gran_bookkeeping : forall c v run,
+  cfg_ok c -> reachD c v run -> VamGran.GV v.
+Proof. intros c v run Hc. exact (reachD_gv c Hc v run). Qed.
+Print Assumptions C02_defrag_gran_bookkeeping.
 
 (* non-vacuity: two block allocations, the first is freed, a defragmentation run moves the second one from
    offset 1008 to offset 0 (BeginDefragPass proposes the move, EndDefragPass with MoveOperation copy completes
